@@ -35,6 +35,7 @@ REQUIRED_BRANCHES = ['eof', 'reject_columns_mod1', 'reject_columns_mod2', 'rejec
                      'dict_roundtrip', 'pickle_roundtrip', 'n12', 'fmt_text', 'parse_format_parse', 'valid_float_array',
                      'flux_int_error_float', 'flux_float_error_int', 'array_int_dtype', 'array_float32', 'array_big_endian',
                      'array_list_or_tuple', 'array_readonly', 'kept_sources_same_columns', 'kept_sources_mixed_columns',
+                     'source_via_copy', 'parse_after_rejected_line', 'keyword_call',
                      'spelling_inf_nan', 'spelling_underscore', 'spelling_flag']
 ASSUMPTIONS = ['IEEE negative zero is excluded from the formatted sources: the rational model has a single zero, Python prints -0.0 '
                'as "-0.00000" / "-0.000e+00" (a sign the model cannot carry), and both texts read back as a value equal to 0, '
@@ -301,7 +302,7 @@ def gen_cases(seed, tier):
         elif k % 4 in (1, 2):
             for sd in srcs:
                 with_repr(rng, sd)             # lists / tuples / int32 / int64 / float32 / big-endian / read-only arrays
-        yield dict(type='roundtrip' if k % 3 else 'state', sources=srcs, seed=seed)
+        yield dict(type='roundtrip' if k % 3 else 'state', sources=srcs, seed=seed, via_copies=(k % 2 == 1))
     # every (flux representation, error representation) pair, formatted and through dict / pickle
     for typ in ('roundtrip', 'state'):
         rng = rng_next()
@@ -323,6 +324,13 @@ def gen_cases(seed, tier):
         for _ in range(rng.randint(4, 12)):
             n = n0 if (same or rng.random() < 0.5) else rng.randint(0, 6)
             lines.append(layout(rng, good_tokens(rng, n)))
+            if rng.random() < 0.3:     # a malformed line in between (rejected), the parser is used again afterwards
+                bad = good_tokens(rng, n0)
+                if rng.random() < 0.5 or n0 == 0:
+                    bad = bad[:-1] if len(bad) > 3 else bad + ['1.5']
+                else:
+                    bad[3] = rng.choice(['5', '7', '-1', '2.5'])
+                lines.append(layout(rng, bad))
         yield dict(type='kept', same_columns=same, lines=lines, seed=seed)
     # parse -> format -> parse: the sources are the ones from_ascii builds (np.float64 x/y, platform-int flags)
     for k in range(max(4, nrand // 4)):
@@ -530,6 +538,17 @@ def run_lines(case, with_model=True):
     return True, None, '', branches, nontrivial
 
 
+def via_copy(src, via):
+    """the source as a caller may hold it: itself, or a shallow / deep / pickled copy"""
+    if via == 'copy':
+        return copy.copy(src)
+    if via == 'deepcopy':
+        return copy.deepcopy(src)
+    if via == 'pickle':
+        return pickle.loads(pickle.dumps(src, 2))
+    return src
+
+
 def make_src(s):
     src = pk.make_source(s['name'], s['valid'], s['flux'], s['error'], x=s['x'], y=s['y'])
     if s.get('valid_float'):
@@ -551,13 +570,17 @@ def run_roundtrip(case, with_model=True):
     from sedfitter.source import Source
     branches = set()
     drv = common.driver() if with_model else None
-    for s0 in case['sources']:
-        src = make_src(s0)
+    for i0, s0 in enumerate(case['sources']):
+        via = [None, 'copy', 'deepcopy', 'pickle'][i0 % 4] if case.get('via_copies') else None
+        src = via_copy(make_src(s0), via)
+        if via:
+            branches.add('source_via_copy')
         s = effective(s0)
         branches |= repr_branches(s0)
         try:
             line = src.to_ascii()
-            back = Source.from_ascii(line)
+            back = Source.from_ascii(line=line) if i0 % 2 else Source.from_ascii(line)
+            branches.add('keyword_call')
         except Exception as e:        # noqa
             return False, True, 'to_ascii/from_ascii raised %s: %s on %r' % (type(e).__name__, e, s), branches
         branches.add('roundtrip')
@@ -611,9 +634,11 @@ def run_kept(case):
     for line in case['lines']:
         sp = spec(py_tokens(line))
         if sp[0] != 'ok':
+            if impl_parse(line)[0] == 'error' and kept:
+                branches.add('parse_after_rejected_line')
             continue
         try:
-            kept.append((line, sp[1], Source.from_ascii(line)))
+            kept.append((line, sp[1], Source.from_ascii(line=line) if len(kept) % 2 else Source.from_ascii(line)))
         except Exception as e:        # noqa
             return False, True, 'from_ascii raised %s: %s on line %r' % (type(e).__name__, e, line), branches
     for stage in ('after all lines were parsed', 'after the arrays of the first source were overwritten in place'):
@@ -701,8 +726,11 @@ def run_state(case, with_model=True):
     from sedfitter.source import Source
     branches = set()
     drv = common.driver() if with_model else None
-    for s0 in case['sources']:
-        src = make_src(s0)
+    for i0, s0 in enumerate(case['sources']):
+        via = [None, 'copy', 'deepcopy', 'pickle'][i0 % 4] if case.get('via_copies') else None
+        src = via_copy(make_src(s0), via)
+        if via:
+            branches.add('source_via_copy')
         s = effective(s0)
         branches |= repr_branches(s0)
         held = fields(src)
@@ -710,7 +738,7 @@ def run_state(case, with_model=True):
             return False, True, 'the setters changed the values of %r (held as %r): %r' % (s, s0.get('repr'), held), branches
         try:
             d = src.to_dict()
-            back = Source.from_dict(d)
+            back = Source.from_dict(source_dict=d) if i0 % 2 else Source.from_dict(d)
         except Exception as e:        # noqa
             return False, True, 'to_dict/from_dict raised %s: %s on %r' % (type(e).__name__, e, s), branches
         if sorted(d) != ['error', 'flux', 'name', 'valid', 'x', 'y'] or not src_equal(src, back):
